@@ -593,6 +593,10 @@ func (ed *economicsData) ComputeGasLimitBasedOnBalance(tx process.TransactionWit
 
 	if !ed.flagGasPriceModifier.IsSet() {
 		gasPriceBig := big.NewInt(0).SetUint64(tx.GetGasPrice())
+		if gasPriceBig.Sign() == 0 {
+			// the gas is free, so the largest gas limit that a transaction can have is affordable
+			return ed.maxGasLimitPerBlock - 1, nil
+		}
 		gasLimitBig := big.NewInt(0).Div(balanceWithoutTransferValue, gasPriceBig)
 
 		return gasLimitBig.Uint64(), nil
@@ -601,6 +605,10 @@ func (ed *economicsData) ComputeGasLimitBasedOnBalance(tx process.TransactionWit
 	remainedBalanceAfterMoveBalanceFee := big.NewInt(0).Sub(balanceWithoutTransferValue, moveBalanceFee)
 	gasPriceBigForProcessing := ed.GasPriceForProcessing(tx)
 	gasPriceBigForProcessingBig := big.NewInt(0).SetUint64(gasPriceBigForProcessing)
+	if gasPriceBigForProcessingBig.Sign() == 0 {
+		// the gas used for processing is free, so the largest gas limit that a transaction can have is affordable
+		return ed.maxGasLimitPerBlock - 1, nil
+	}
 	gasLimitFromRemainedBalanceBig := big.NewInt(0).Div(remainedBalanceAfterMoveBalanceFee, gasPriceBigForProcessingBig)
 
 	gasLimitMoveBalance := ed.ComputeGasLimit(tx)
